@@ -301,6 +301,17 @@ class Compiler:
             return self._cell_vars.index(name)
         return None
 
+    def _emit_store_variable(self, name: str) -> None:
+        """Store the top of the stack in a variable of the current function
+        (for-in/for-of targets, catch parameters): in its cell when inner
+        functions capture it, so that they see the value."""
+        cell_slot = self._get_cell_var(name)
+        if cell_slot is not None:
+            self._emit(OpCode.STORE_CELL, cell_slot)
+        else:
+            self._add_local(name)
+            self._emit(OpCode.STORE_LOCAL, self._get_local(name))
+
     def _find_captured_vars(self, body: Node, locals_set: set) -> set:
         """Find all variables captured by inner functions."""
         captured = set()
@@ -411,6 +422,10 @@ class Compiler:
         elif isinstance(node, FunctionDeclaration):
             var_set.add(node.id.name)
             # Don't recurse into function body
+        elif isinstance(node, CatchClause):
+            # The catch parameter is a variable of the function like any other
+            var_set.add(node.param.name)
+            self._collect_var_decls(node.body, var_set)
         elif isinstance(node, BlockStatement):
             for stmt in node.body:
                 self._collect_var_decls(stmt, var_set)
@@ -635,9 +650,7 @@ class Compiler:
                 decl = node.left.declarations[0]
                 name = decl.id.name
                 if self._in_function:
-                    self._add_local(name)
-                    slot = self._get_local(name)
-                    self._emit(OpCode.STORE_LOCAL, slot)
+                    self._emit_store_variable(name)
                 else:
                     idx = self._add_name(name)
                     self._emit(OpCode.STORE_NAME, idx)
@@ -646,7 +659,7 @@ class Compiler:
                 name = node.left.name
                 slot = self._get_local(name)
                 if slot is not None:
-                    self._emit(OpCode.STORE_LOCAL, slot)
+                    self._emit_store_variable(name)
                 else:
                     idx = self._add_name(name)
                     self._emit(OpCode.STORE_NAME, idx)
@@ -705,9 +718,7 @@ class Compiler:
                 decl = node.left.declarations[0]
                 name = decl.id.name
                 if self._in_function:
-                    self._add_local(name)
-                    slot = self._get_local(name)
-                    self._emit(OpCode.STORE_LOCAL, slot)
+                    self._emit_store_variable(name)
                 else:
                     idx = self._add_name(name)
                     self._emit(OpCode.STORE_NAME, idx)
@@ -716,7 +727,7 @@ class Compiler:
                 name = node.left.name
                 slot = self._get_local(name)
                 if slot is not None:
-                    self._emit(OpCode.STORE_LOCAL, slot)
+                    self._emit_store_variable(name)
                 else:
                     idx = self._add_name(name)
                     self._emit(OpCode.STORE_NAME, idx)
@@ -853,9 +864,7 @@ class Compiler:
                 self._emit(OpCode.CATCH)
                 # Store exception in catch variable
                 name = node.handler.param.name
-                self._add_local(name)
-                slot = self._get_local(name)
-                self._emit(OpCode.STORE_LOCAL, slot)
+                self._emit_store_variable(name)
                 self._emit(OpCode.POP)
                 self._compile_statement(node.handler.body)
                 # Fall through to finally
